@@ -142,6 +142,12 @@ type vfSwitch struct {
 	failWrite  map[string]int  // owner -> number of upcoming WriteTo calls that fail with an I/O error
 	blockWrite map[string]bool // owner -> WriteTo blocks until a write deadline fires or the socket is closed
 	closeErr   map[string]bool // owner -> Close returns an error (the socket is closed all the same)
+	// directed schedule: ListenUDP calls of parkOwner wait on parkGate (closed by the harness); seq orders socket
+	// creations against harness events (e.g. "Close returned")
+	parkOwner string
+	parkGate  chan struct{}
+	parked    atomic.Int32
+	seq       atomic.Int64
 }
 
 func newVfSwitch() *vfSwitch {
@@ -220,6 +226,7 @@ type vfConn struct {
 	created       string
 	manual        *vfPeer // socket owned by the scripted peer: no reader goroutine, deliveries go to the peer's inbox
 	tcp           bool    // a packet connection handed out by the simulated TCP mux: addresses are *net.TCPAddr
+	createdSeq    int64   // position of this socket's creation in the switch's event order
 }
 
 func (c *vfConn) addr(ap netip.AddrPort) net.Addr {
@@ -636,7 +643,22 @@ func (s *vfSwitch) openSockets(owner string) []*vfConn {
 type vfNet struct {
 	sw     *vfSwitch
 	owner  string
+	ifMu   sync.Mutex
 	ifaces []*transport.Interface
+}
+
+// addInterface makes a new interface with one address appear at run time (continual gathering watches for that).
+func (n *vfNet) addInterface(name, ipStr string) {
+	ip := net.ParseIP(ipStr)
+	bits, ones := 128, 64
+	if ip.To4() != nil {
+		bits, ones = 32, 24
+	}
+	n.ifMu.Lock()
+	defer n.ifMu.Unlock()
+	ifc := transport.NewInterface(net.Interface{Index: len(n.ifaces) + 1, MTU: 1500, Name: name, Flags: net.FlagUp})
+	ifc.AddAddress(&net.IPNet{IP: ip, Mask: net.CIDRMask(ones, bits)})
+	n.ifaces = append(append([]*transport.Interface{}, n.ifaces...), ifc)
 }
 
 func (n *vfNet) ListenPacket(network, address string) (net.PacketConn, error) {
@@ -649,6 +671,17 @@ func (n *vfNet) ListenPacket(network, address string) (net.PacketConn, error) {
 }
 
 func (n *vfNet) ListenUDP(network string, la *net.UDPAddr) (transport.UDPConn, error) {
+	n.sw.mu.Lock()
+	gate := n.sw.parkGate
+	if n.sw.parkOwner != n.owner {
+		gate = nil
+	}
+	n.sw.mu.Unlock()
+	if gate != nil {
+		n.sw.parked.Add(1)
+		<-gate
+		n.sw.parked.Add(-1)
+	}
 	n.sw.mu.Lock()
 	defer n.sw.mu.Unlock()
 	n.sw.listens++
@@ -680,7 +713,7 @@ func (n *vfNet) ListenUDP(network string, la *net.UDPAddr) (transport.UDPConn, e
 	if _, ok := n.sw.eps[ap]; ok {
 		return nil, errors.New("vfNet: address in use")
 	}
-	c := &vfConn{sw: n.sw, owner: n.owner, local: ap, inbox: make(chan *vfDgram), closed: make(chan struct{})}
+	c := &vfConn{sw: n.sw, owner: n.owner, local: ap, inbox: make(chan *vfDgram), closed: make(chan struct{}), createdSeq: n.sw.seq.Add(1)}
 	n.sw.eps[ap] = c
 	n.sw.all = append(n.sw.all, c)
 
@@ -710,9 +743,16 @@ func (n *vfNet) ResolveUDPAddr(network, address string) (*net.UDPAddr, error) {
 func (n *vfNet) ResolveTCPAddr(network, address string) (*net.TCPAddr, error) {
 	return net.ResolveTCPAddr(network, address)
 }
-func (n *vfNet) Interfaces() ([]*transport.Interface, error) { return n.ifaces, nil }
+func (n *vfNet) Interfaces() ([]*transport.Interface, error) {
+	n.ifMu.Lock()
+	defer n.ifMu.Unlock()
+
+	return n.ifaces, nil
+}
+
 func (n *vfNet) InterfaceByIndex(i int) (*transport.Interface, error) {
-	for _, ifc := range n.ifaces {
+	ifs, _ := n.Interfaces()
+	for _, ifc := range ifs {
 		if ifc.Index == i {
 			return ifc, nil
 		}
@@ -722,7 +762,8 @@ func (n *vfNet) InterfaceByIndex(i int) (*transport.Interface, error) {
 }
 
 func (n *vfNet) InterfaceByName(name string) (*transport.Interface, error) {
-	for _, ifc := range n.ifaces {
+	ifs, _ := n.Interfaces()
+	for _, ifc := range ifs {
 		if ifc.Name == name {
 			return ifc, nil
 		}
